@@ -116,15 +116,27 @@ void _ZdlPvmSt11align_val_t(void* p, uint64_t n, uint64_t a){ vh_aligned_delete(
 #define VLL_NO_ALIGNED_MODELS 1
 #endif
 #ifndef VLL_NO_ALLOC_MODELS
+#ifdef VLL_NEW_HOOK
+/* chosen objects come from a TYPED static pool owned by the harness (field reads then fold to constants in symbolic
+ * execution; a malloc'ed block is an untyped byte array); vh_new returns 0 for everything else */
+void* vh_new(uint64_t n); int vh_owns(void* p);
+void* _Znwm(uint64_t n){ alloc_check(); void* p = vh_new(n); return p ? p : vll_alloc(n); }
+#else
 void* _Znwm(uint64_t n){ alloc_check(); return vll_alloc(n); }
+#endif
 void* _Znam(uint64_t n){ alloc_check(); return vll_alloc(n); }
 #ifndef VLL_NO_ALIGNED_MODELS
 void* _ZnwmSt11align_val_t(uint64_t n, uint64_t a){ alloc_check(); return vll_alloc(n); }
 #endif
 void* _ZnamSt11align_val_t(uint64_t n, uint64_t a){ return vll_alloc(n); }
+#ifdef VLL_NEW_HOOK
+void _ZdlPv(void* p){ if (p && vh_owns(p)) return; VLL_FREE(p); }
+void _ZdlPvm(void* p, uint64_t n){ if (p && vh_owns(p)) return; VLL_FREE(p); }
+#else
 void _ZdlPv(void* p){ VLL_FREE(p); }
-void _ZdaPv(void* p){ VLL_FREE(p); }
 void _ZdlPvm(void* p, uint64_t n){ VLL_FREE(p); }
+#endif
+void _ZdaPv(void* p){ VLL_FREE(p); }
 void _ZdaPvm(void* p, uint64_t n){ VLL_FREE(p); }
 #ifndef VLL_NO_ALIGNED_MODELS
 void _ZdlPvSt11align_val_t(void* p, uint64_t a){ vra_forget(p, 512); VLL_FREE(p); }
